@@ -27,11 +27,10 @@ CLAIMS["C03"] = dict(
     technique="Lean 4 proof over lexer model + crash/hang oracle on the real pipeline",
     design="§5 C03")
 CLAIMS["C10"] = dict(
-    text="Unbounded Lean theorem print_parse_roundtrip: for every expression over names, literals and the complete set of 23 binary and 4 unary operators (any nesting and depth), a model of the Python 3 expression grammar parses the tokens printed by the model of to_py back to exactly the tree the expression denotes (and to no other). "
-         "The printer's operator spellings, precedence and operand-minimum tables are regenerated from the Rust source on every run, so the proof is re-checked against the current tables; the print model is tied to format!(core) by an exact-text correspondence, and the grammar model is validated against CPython ast.parse. "
-         "Ternary, lambda, call/index/attribute and the desugared forms are covered by the exhaustive depth<=2 / sampled CPython oracle and by both correspondences.",
-    note="Proved: operator fragment (binary incl. comparisons and **, unary, parentheses). Not yet a theorem: ternary, lambda, postfix, isinstance/sqrt/E-notation, collections (oracle + correspondence). Python tokenisation of the rendered text is validated (ast.parse of the real text), not proved.",
-    technique="Lean 4 proof (printer vs Python grammar round trip) + regenerated tables + CPython-validated spec",
+    text="Unbounded Lean theorem print_parse_roundtrip_full: for EVERY expression the printer model can print — names, literals, all 23 binary and 4 unary operators, conditional expressions, lambdas, calls, attribute access and method calls, subscripts, isinstance, math.sqrt, E-notation, tuple/list/set displays, nested in any way and to any depth — a model of the Python 3 expression grammar parses the printed tokens back to exactly the tree the expression denotes, and to no other (roundtrip_unique_full). The fragment excludes only one-element tuples and the empty set display, for which the statement is false (one_tuple_witness proves `(x,)` is printed as `(x)` and parsed as `x`), property accesses that are neither a name nor a call of a name, and lambda parameters that are not names. print_parse_roundtrip / operand_roundtrip are the operator-fragment special cases. "
+         "The printer's operator spellings, precedence table, operand minima and ternary minima are regenerated from the Rust source on every run, so the proof is re-checked against the current tables; the print model is tied to format!(core) by an exact-text correspondence on generated Core trees, and the grammar model is validated against CPython ast.parse on the real printed texts and on parenthesis-free texts. Builders (comprehensions), where the printer adds an `and` chain of its own, and the composition with the real text tokeniser are decided by the CPython oracle on the implementation (exhaustive to depth 2, sampled deeper, every ordered pair of condition forms).",
+    note="Proved: the whole expression language of the printer model (Lemmas/PyFull.lean, PyExt.lean on top of the operator fragment). Not a theorem: builders/comprehensions and dictionaries (oracle), Python tokenisation of the rendered text (validated by ast.parse of the real text on every run).",
+    technique="Lean 4 proof (printer vs Python grammar round trip, full expression language) + regenerated tables + CPython-validated spec",
     design="§5 C10")
 CLAIMS["C20"] = dict(
     text="Unbounded Lean theorems on the model of Name/TrueName::is_superset_of over an arbitrary variant relation (hence every class table and every type depth): member-wise characterisation, union<=U iff each member, order independence of stored members, and the nullable rules (T? never <= T, None <= T?, T <= T? when variants relate). "
